@@ -126,12 +126,16 @@ func (c *c14Case) inline(ps []c14Piece, depth int, vars map[string]string, base 
 		if !ok {
 			return "", false
 		}
-		sb.WriteString(inner)
+		// "inserts exactly the output that rendering that file's content directly would give": the content is
+		// rendered on its own (whitespace control at its edges stays inside it) and its output is inserted as a value
+		c14Site++
+		fmt.Fprintf(&sb, "{%% capture inc_%d %%}%s{%% endcapture %%}{{ inc_%d }}", c14Site, inner, c14Site)
 	}
 	return sb.String(), true
 }
 
 var c14Seq int
+var c14Site int
 
 var c14Graph = hx.Define("c14.graph", func(c *c14Case, s *hx.Sub) *hx.Violation {
 	base := os.Getenv("VERIF_OUT")
@@ -333,13 +337,29 @@ func TestC14(t *testing.T) {
 	env := col.Env
 
 	g := c14Graph.On(col, "rapid: acyclic include graphs (chains up to depth 4 in the top template's directory, leaves in nested sub-directories and above the directory (../up.html), the same base name in several directories with distinct content; for a third of the cases a second top-level template in the sub-directory d1 is rendered on the same engine afterwards and reaches the same files under other relative names) laid out in a fresh temporary directory per case; every file is independently on disk, only registered through ParseTemplateAndCache, both with different content, zero bytes on disk with cached source, or missing; include arguments spelled as double/single-quoted literals, bound variables, variables assigned earlier in the render and filtered expressions; bodies print bound and includer-assigned variables, loop and branch. Metamorphic oracle: render(T) = render(T with every include replaced, recursively, by the content the statement selects: disk over cache), same path and bindings; a missing file fails the render with no output; an error inside an included template fails both. Non-trivial: an include resolved from a nested directory, from the cache, or with disk and cache disagreeing; distinct by layout", false)
-	texts := []string{"t", " [{{ n }}] ", "{{ s | upcase }}", "{% assign pv = n | plus: 1 %}{{ pv }}", "{% if n == 1 %}one{% else %}other{% endif %}", "{% for q in a %}{{ q }},{% endfor %}", "{{ shared }}", "\n", "{% assign shared = \"set-by-includer\" %}", "{{ 1 | divided_by: n }}"}
-	genText := func(t *rapid.T, tag string) c14Piece {
+	texts := []string{"t", " [{{ n }}] ", "{{ s | upcase }}", "{% assign pv = n | plus: 1 %}{{ pv }}", "{% if n == 1 %}one{% else %}other{% endif %}", "{% for q in a %}{{ q }},{% endfor %}", "{{ shared }}", "\n", "{% assign shared = \"set-by-includer\" %}", "{{ 1 | divided_by: n }}",
+		"  "}
+	// whitespace control at the outer edge of a file: the first piece of a file may begin, the last may end, with a hyphenated
+	// tag (facing the file's boundary); an includer has white space next to the include tag. A hyphen that faces an
+	// include tag from the includer's side is not generated: what it does to the included output is not stated (C13 speaks of literal text)
+	firstEdge := []string{"{{- n }}", "{%- if true %}y{% endif %}", "{{- s }} "}
+	lastEdge := []string{"{{ n -}}", "{% if true %}y{% endif -%}", " {{ s -}}"}
+	genText := func(t *rapid.T, tag string, pos ...string) c14Piece {
+		if len(pos) > 0 && rapid.IntRange(0, 3).Draw(t, "edge") == 0 {
+			if pos[0] == "first" {
+				return c14Piece{Text: rapid.SampledFrom(firstEdge).Draw(t, "first-edge")}
+			}
+			return c14Piece{Text: rapid.SampledFrom(lastEdge).Draw(t, "last-edge")}
+		}
 		txt := rapid.SampledFrom(texts).Draw(t, "text")
 		if tag != "top" && tag != "top2" && strings.Contains(txt, "assign shared") {
 			// variables assigned inside an included template are not promised to reach the includer,
 			// so only the top template assigns a name that others read
 			txt = "{{ shared }}"
+		}
+		if strings.Contains(txt, "-}}") || strings.Contains(txt, "{{-") || strings.Contains(txt, "{%-") || strings.TrimSpace(txt) == "" {
+			// as it stands, so that a file may begin or end with a hyphenated tag and an include may have white space next to it
+			return c14Piece{Text: txt}
 		}
 		return c14Piece{Text: "<" + tag + ":" + txt + ">"}
 	}
@@ -352,7 +372,7 @@ func TestC14(t *testing.T) {
 		chain := []string{"a.html", "b.html", "c.html", "d.html"}
 		style := func() int { return rapid.IntRange(0, 5).Draw(t, "style") }
 		mk := func(name string, next string, variant string) []c14Piece {
-			ps := []c14Piece{genText(t, name+variant)}
+			ps := []c14Piece{genText(t, name+variant, "first")}
 			if next != "" && next != "-" && rapid.IntRange(0, 3).Draw(t, "chain") > 0 {
 				ps = append(ps, c14Piece{Target: next, Style: style()})
 			}
@@ -363,7 +383,8 @@ func TestC14(t *testing.T) {
 			if next != "" && rapid.Bool().Draw(t, "leafinc") {
 				ps = append(ps, c14Piece{Target: rapid.SampledFrom(leaves).Draw(t, "leaf"), Style: style()})
 			}
-			ps = append(ps, genText(t, name+variant))
+			// (a file without includes is one piece: it keeps its first piece only when that ends the file too)
+			ps = append(ps, genText(t, name+variant, "last"))
 			return ps
 		}
 		addFile := func(name, next string) {
